@@ -305,7 +305,7 @@ def gen_history(rng, g: Grid, length: int, qd: bool):
         elif x < 0.80:
             sel = None if rng.random() < 0.4 else [d for d in range(NDID) if rng.random() < 0.5]
             keys = [(c, ty, d) for d in (range(NDID) if sel is None else sel)]
-            op = {"op": "decertify", "coll": c, "ty": ty, "ts": list(pick_ts(keys, inside=rng.random() < 0.45)), "sel": sel}
+            op = {"op": "decertify", "coll": c, "ty": ty, "ts": list(pick_ts(keys, inside=rng.random() < 0.6)), "sel": sel}
         elif x < 0.87 and nrem < 2:
             certified = sorted({d for m in book.valid.values() for d in m.values()})
             op = {"op": "remove", "ds": rng.choice(certified) if certified and rng.random() < 0.8 else rng.randrange(18)}
@@ -567,8 +567,8 @@ def run(ctx: Ctx):
         if b - a > 1 and c - b > 1:
             grids.append(Grid(a, b, c))
     import os
-    n_hist = int(os.environ.get("C04_NHIST", "0")) or (45 if ctx.quick else 420)
-    length = 12 if ctx.quick else 18
+    n_hist = int(os.environ.get("C04_NHIST", "0")) or (45 if ctx.quick else 300)
+    length = 12 if ctx.quick else 16
     per_grid = []
     for gi, g in enumerate(grids):
         n = n_hist if ctx.quick else (n_hist // 2 if gi == 0 else n_hist // (2 * (len(grids) - 1)))
